@@ -373,6 +373,8 @@ def nesting(chk, tier):
                                    'get_calls': counter['n'], 'bound': nclasses * (ntok + 1), 'stream': 'parse-steps'})
                 if dt > 5:
                     chk.violation({'why': 'translation of a nested formula took more than 5 s', 'formula': f[:200], 'seconds': round(dt, 1), 'stream': 'time'})
+                if counter['n'] > 4 * nclasses * (ntok + 1) or dt > 5:
+                    break           # growth beyond the bound is established for this shape; deeper nesting only takes longer (this loop runs in-process)
     finally:
         setattr(CompositeBaseToken, hook, classmethod(orig))
 
